@@ -19,25 +19,30 @@ VARIABLES l, failed
 Trace == JsonDeserialize(IOEnv.TRACE_FILE)
 tvars == <<vars, l, failed>>
 TraceInit == l = 1 /\ failed = FALSE /\ exists = FALSE /\ rows = <<>> /\ writer = "none" /\ ret = None /\ hist = <<>>
+             /\ uid = -1 /\ uids = <<>>
 
-ModelStep(o) ==      \* [rows, exists, writer, ret] after operation o in the current state
+ModelStep(o) ==      \* [rows, uids, uid, exists, writer, ret] after operation o in the current state
   CASE o.name = "start" -> [rows |-> IF o.mode = "exists" THEN <<H, <<2, 1>>>> ELSE <<>>, exists |-> o.mode = "exists",
-                            writer |-> "none", ret |-> None]
-    [] o.name = "csv" -> [rows |-> IF o.mode = "w" THEN <<H>> \o Rows(o.d) ELSE IF exists THEN rows \o Rows(o.d) ELSE rows \o <<H>> \o Rows(o.d),
-                          exists |-> TRUE, writer |-> writer, ret |-> None]
-    [] o.name = "winit" -> [rows |-> IF o.mode = "w" THEN <<H>> ELSE IF exists THEN rows ELSE <<H>>,
-                            exists |-> TRUE, writer |-> "open", ret |-> None]
-    [] o.name = "wwrite" -> IF writer = "closed" THEN [rows |-> rows, exists |-> exists, writer |-> writer, ret |-> [kind |-> "RuntimeError", n |-> 0]]
-                            ELSE [rows |-> IF o.d = 0 THEN rows ELSE rows \o Rows(o.d), exists |-> exists, writer |-> writer,
+                            uids |-> IF o.mode = "exists" THEN Blank(2) ELSE <<>>, uid |-> -1, writer |-> "none", ret |-> None]
+    [] o.name = "csv" -> LET r2 == IF o.mode = "w" THEN <<H>> \o Rows(o.d) ELSE IF exists THEN rows \o Rows(o.d) ELSE rows \o <<H>> \o Rows(o.d)
+                         IN [rows |-> r2, uids |-> Blank(Len(r2)), uid |-> uid, exists |-> TRUE, writer |-> writer, ret |-> None]
+    [] o.name = "winit" -> LET r2 == IF o.mode = "w" THEN <<H>> ELSE IF exists THEN rows ELSE <<H>>
+                           IN [rows |-> r2, uids |-> IF o.mode = "w" \/ ~exists THEN Blank(Len(r2)) ELSE uids,
+                               uid |-> IF o.d = 0 THEN -1 ELSE o.d, exists |-> TRUE, writer |-> "open", ret |-> None]
+    [] o.name = "wwrite" -> IF writer = "closed" THEN [rows |-> rows, uids |-> uids, uid |-> uid, exists |-> exists, writer |-> writer,
+                                                       ret |-> [kind |-> "RuntimeError", n |-> 0]]
+                            ELSE [rows |-> IF o.d = 0 THEN rows ELSE rows \o Rows(o.d),
+                                  uids |-> IF o.d = 0 THEN uids ELSE uids \o UidRows(uid, o.d),
+                                  uid |-> IF uid < 0 THEN uid ELSE uid + 1, exists |-> exists, writer |-> writer,
                                   ret |-> [kind |-> "count", n |-> IF o.d = 0 THEN 0 ELSE NTracts(o.d)]]
-    [] o.name = "wclose" -> [rows |-> rows, exists |-> exists, writer |-> "closed", ret |-> None]
-    [] o.name = "wopen" -> [rows |-> rows, exists |-> exists, writer |-> "open", ret |-> None]
+    [] o.name = "wclose" -> [rows |-> rows, uids |-> uids, uid |-> uid, exists |-> exists, writer |-> "closed", ret |-> None]
+    [] o.name = "wopen" -> [rows |-> rows, uids |-> uids, uid |-> uid, exists |-> exists, writer |-> "open", ret |-> None]
 
 Consume ==
   /\ l <= Len(Trace) /\ l' = l + 1 /\ hist' = <<>>
   /\ LET ev == Trace[l] IN
      IF ev.kind = "records"
-     THEN /\ UNCHANGED <<exists, rows, writer, ret, failed>>
+     THEN /\ UNCHANGED <<exists, rows, writer, ret, failed, uid, uids>>
           /\ LET clause == IF ev.exc # "none" THEN "exception_raised"
                            ELSE IF ev.n_records # ev.n_tracts THEN "not_one_record_per_tract"
                            ELSE IF ~ev.order_ok THEN "records_out_of_order"
@@ -54,12 +59,13 @@ Consume ==
                         ELSE IF Len(ev.rows) # Len(m.rows) THEN "wrong_number_of_rows"
                         ELSE IF ev.rows # m.rows THEN "rows_differ_from_header_plus_one_row_per_tract"
                         ELSE IF m.ret.kind = "count" /\ ev.ret.n # m.ret.n THEN "write_returned_wrong_count"
+                        ELSE IF ev.uids # m.uids THEN "uid_column_differs"
                         ELSE IF ~ev.cells_ok THEN "cell_differs_from_attribute"
                         ELSE "ok"
-          IN IF skip THEN UNCHANGED <<exists, rows, writer, ret, failed>>
+          IN IF skip THEN UNCHANGED <<exists, rows, writer, ret, failed, uid, uids>>
              ELSE /\ (IF clause = "ok" THEN TRUE ELSE PrintT(<<"FAIL", ev.tid, clause, ev.seq>>))
                   /\ failed' = (clause # "ok")
-                  /\ rows' = m.rows /\ exists' = m.exists /\ writer' = m.writer /\ ret' = m.ret
+                  /\ rows' = m.rows /\ exists' = m.exists /\ writer' = m.writer /\ ret' = m.ret /\ uid' = m.uid /\ uids' = m.uids
 TraceSpec == TraceInit /\ [][Consume]_tvars
 AllConsumed ==
   /\ PrintT(<<"INFO", "consumed", TLCGet("stats").diameter - 1, Len(Trace)>>)
